@@ -43,7 +43,7 @@ FLOOR = {"tmpl:cp": 1, "tmpl:tucker": 1, "tmpl:tensor_train": 1, "tt:modes>=3": 
 def plan(tier, seed):
     q = tier == "quick"
     cases = []
-    for k in range(14 if q else 1800):
+    for k in range(28 if q else 1800):
         for t in ("cp", "tucker", "tensor_train", "ff"):
             cases.append({"kind": t, "k": k, "seed": seed})
     for n in range(1, 5):
@@ -51,9 +51,9 @@ def plan(tier, seed):
             if q and n == 4 and sum(o) % 3 != 0 and o[0] != 3:
                 continue
             cases.append({"kind": "hmm", "order": list(o), "k": 0, "seed": seed})
-    for k in range(8 if q else 1440):
+    for k in range(16 if q else 1440):
         cases.append({"kind": "hmm", "order": None, "k": k, "seed": seed})
-    for k in range(40 if q else 7200):
+    for k in range(80 if q else 7200):
         cases.append({"kind": "logic", "k": k, "seed": seed})
     return cases
 
